@@ -42,7 +42,23 @@ class Ctx:
         return quick
 
 
+def _default_signal_dispositions():
+    """A check started from a background job of a non-interactive shell inherits SIGINT/SIGQUIT = SIG_IGN, and so would
+    every worker process it creates: a worker that ignores SIGINT cannot be ended by the SIGINT rung of execnet's exit
+    ladder (C11) — an artefact of how the check was launched, not of the code.  A Python-level handler here makes every
+    exec'd child start with the default disposition again."""
+    import signal
+
+    for sig, handler in ((signal.SIGINT, signal.default_int_handler), (signal.SIGQUIT, signal.SIG_DFL)):
+        try:
+            if signal.getsignal(sig) == signal.SIG_IGN:
+                signal.signal(sig, handler)
+        except (ValueError, OSError):
+            pass
+
+
 def main(argv=None):
+    _default_signal_dispositions()
     ap = argparse.ArgumentParser()
     ap.add_argument("prop")
     ap.add_argument("--tier", default=os.environ.get("VERIF_TIER", "quick"), choices=["quick", "thorough"])
